@@ -188,7 +188,7 @@ func genScript0(profile string, seed int64, idx int, tier string) SScript {
 	case "c11":
 		weights = map[string]int{"w": 40, "r": 8, "d": 3, "xa": 4, "cleanup": 25, "wshort": 0, "store": 5}
 		s.Cfg.DEA = []time.Duration{0, time.Hour, 30 * time.Minute, time.Millisecond}[rng.Intn(4)]
-		s.Cfg.RealJanitor = idx%5 == 4
+		s.Cfg.RealJanitor = idx%5 == 4 && idx >= 6 // (the first six are the directed scripts below, two per backend kind)
 	case "c12":
 		weights = map[string]int{"w": 50, "r": 20, "d": 2, "cleanup": 15, "store": 3, "load": 10, "xa": 1}
 		s.Cfg.CSL = uint64(rng.Intn(8))
